@@ -2,6 +2,9 @@ import BFL.Proofs.History
 import BFL.Proofs.ExtractStats
 import BFL.Proofs.ExtractWeights
 import BFL.Proofs.ExtractWindow
+import BFL.Proofs.HistoryMove
+import BFL.Proofs.ExtractMove
+import BFL.Proofs.ExtractBot
 /-
 C17 — Estimate extraction and its sliding window return the advertised statistic.
 
@@ -397,6 +400,102 @@ example : pushed (1 : ℝ) (runLog 1 1 0 [.extract2 { ps := [[3]], ws := [0] }])
     (.extract2 { ps := [[5], [4]], ws := [0, 1] }) = some [4] := by
   simp [runLog, runLogFrom, pushed, step, extract2, EE.init, Method.stat, Method.fam, windowed,
     baseEst, modeEst, argmaxFirst, argmaxAux, EE.setCached]
+
+
+/-! ## Hand-over: move-constructed and move-assigned objects -/
+
+/-- `HistoryBuffer`: after move construction or move assignment the destination holds exactly what the
+    source held; the source is in the documented moved-from state (window 0, empty); a self move-assignment
+    changes nothing. -/
+theorem buffer_handover {β : Type} (p : HistBuf.Pair β) (i : Bool) :
+    ((HistBuf.step2 p (.moveCtor i)).get (!i) = p.get i ∧ (HistBuf.step2 p (.moveCtor i)).get i = HistBuf.movedFrom) ∧
+    ((HistBuf.step2 p (.moveAssign i (!i))).get (!i) = p.get i ∧
+      (HistBuf.step2 p (.moveAssign i (!i))).get i = HistBuf.movedFrom) ∧
+    HistBuf.step2 p (.moveAssign i i) = p :=
+  HistBuf.handover_spec p i
+
+/-- In any two-object program (operations, move constructions, move assignments, in any order) every buffer
+    is either moved-from (window 0, empty) or regular: window in [2, 30] bounding the content. -/
+theorem buffer_regular_or_moved_from {β : Type} (ops : List (HistBuf.Op2 β)) (i : Bool) :
+    let h := (HistBuf.run2 ops).get i
+    (h.window = 0 ∧ h.items = []) ∨ (2 ≤ h.window ∧ h.window ≤ 30 ∧ h.items.length ≤ h.window) := by
+  intro h
+  rcases HistBuf.inv'_run2 ops i with hm | hr
+  · exact Or.inl hm
+  · exact Or.inr ⟨hr.lo, hr.hi, hr.len⟩
+
+/-- What a moved-from buffer does: `window_ − 1` wraps to `2³² − 1` and is clamped to 30, `window_ + 1` is
+    clamped to 2, a request of 0 and `addElement` leave it moved-from. -/
+theorem moved_from_buffer_ops {β : Type} :
+    ((HistBuf.movedFrom : HistBuf β).decrease).1.window = 30 ∧ ((HistBuf.movedFrom : HistBuf β).increase).1.window = 2 ∧
+    ((HistBuf.movedFrom : HistBuf β).setWindow 0).1 = HistBuf.movedFrom ∧
+    ∀ x, (HistBuf.movedFrom : HistBuf β).add x = HistBuf.movedFrom :=
+  HistBuf.movedFrom_window_ops
+
+/-- `EstimatesExtraction`: the destination of a move construction / move assignment is exactly the source as
+    it was (method, window, history, cached weights, layout); the source keeps its layout, has method `emode`
+    and a moved-from history buffer. -/
+theorem ee_handover (eps : ℝ) (p : Pool ℝ) :
+    ((poolStep eps p .moveCtor).1.get (!p.cur) = p.get p.cur ∧
+      (poolStep eps p .moveCtor).1.get p.cur = (p.get p.cur).afterMoveCtor) ∧
+    ((poolStep eps p .moveAssign).1.get (!p.cur) = p.get p.cur ∧
+      (poolStep eps p .moveAssign).1.get p.cur = (p.get p.cur).afterMoveAssign (p.get (!p.cur))) :=
+  pool_handover_spec eps p
+
+/-- … hence the handed-over object answers every later call sequence as the configured original would. -/
+theorem handover_behaves_as_original (eps : ℝ) (p : Pool ℝ) (cs : List (Call ℝ)) :
+    outputsFrom eps ((poolStep eps p .moveCtor).1.get (!p.cur)) cs = outputsFrom eps (p.get p.cur) cs ∧
+    outputsFrom eps ((poolStep eps p .moveAssign).1.get (!p.cur)) cs = outputsFrom eps (p.get p.cur) cs := by
+  obtain ⟨⟨h1, _⟩, ⟨h2, _⟩⟩ := pool_handover_spec eps p
+  rw [h1, h2]
+  exact ⟨rfl, rfl⟩
+
+/-- In any two-object program every object has a regular or moved-from history buffer and cached weight
+    vectors that equal a fresh computation for their length (move assignment swaps the vectors: still fresh). -/
+theorem ee_pool_invariant (eps : ℝ) (lin circ : Nat) (cs : List (PoolCall ℝ)) (i : Bool) :
+    let s := (poolRun eps lin circ cs).get i
+    ((s.hist.window = 0 ∧ s.hist.items = []) ∨
+      (2 ≤ s.hist.window ∧ s.hist.window ≤ 30 ∧ s.hist.items.length ≤ s.hist.window)) ∧
+    s.smW = smWeights s.smW.length ∧ s.wmW = wmWeights s.wmW.length ∧ s.emW = emWeights s.emW.length ∧
+    s.lin = lin ∧ s.circ = circ := by
+  intro s
+  have h := inv'_poolRun eps lin circ cs i
+  refine ⟨?_, h.cache.sm, h.cache.wm, h.cache.em, h.lin_eq, h.circ_eq⟩
+  rcases h.hist with hm | hr
+  · exact Or.inl hm
+  · exact Or.inr ⟨hr.lo, hr.hi, hr.len⟩
+
+/-! ## Log-weights `−∞` (particles of weight exactly zero), over `WithBot ℝ` -/
+
+/-- `mean` with log-weights in `ℝ ∪ {−∞}` (`expB ⊥ = 0`, `expB w = e^w`; `meanEst = meanEstE ∘ exp`):
+    linear rows `Σ_j x_j expB(w_j)`; circular rows the argument of the weighted resultant, provided a single
+    particle does not have weight zero — which normalisation excludes. -/
+theorem mean_with_zero_weights (lin circ : Nat) (ps : List (List ℝ)) (ws : List (WithBot ℝ)) :
+    (∀ r, r < lin → (meanEstE lin circ ps (ws.map expB))[r]?
+        = some (List.zipWith (fun p w => p.getD r 0 * expB w) ps ws).sum) ∧
+    (∀ r, r < circ → ps.length = ws.length → (ps.length = 1 → ∀ w ∈ ws, w ≠ ⊥) →
+      (meanEstE lin circ ps (ws.map expB))[lin + r]?
+        = some (Complex.arg (resultant (rowOf ps (lin + r)) (ws.map expB)))) ∧
+    (∀ ws' : List ℝ, (ws'.map (fun w => ((w : ℝ) : WithBot ℝ))).map expB = ws'.map Real.exp) :=
+  ⟨fun r hr => meanEstE_lin_bot lin circ ps ws r hr,
+   fun r hr hlen h1 => meanEstE_circ_bot lin circ ps ws r hr hlen h1, map_expB_coe⟩
+
+/-- The side condition is necessary: a single particle of weight zero (not a normalised weight set). -/
+theorem mean_single_zero_weight_counterexample :
+    (meanEstE 0 1 [[(1 : ℝ)]] ([⊥].map expB))[0]? = some 1 ∧
+    Complex.arg (resultant (rowOf [[(1 : ℝ)]] 0) ([⊥].map expB)) = 0 :=
+  meanEstE_single_zero_weight_counterexample
+
+/-- `mode` with log-weights in `ℝ ∪ {−∞}`: the particle at the first index of maximal log-weight; it never
+    has weight zero unless every particle has. -/
+theorem mode_with_zero_weights (ps : List (List ℝ)) (ws : List (WithBot ℝ)) (hlen : ps.length = ws.length)
+    (hne : ws ≠ []) :
+    ∃ i, ps[i]? = some (modeEst ps ws) ∧
+      (∃ m, ws[i]? = some m ∧ (∀ (j : Nat) x, ws[j]? = some x → x ≤ m) ∧
+        (∀ (j : Nat) x, j < i → ws[j]? = some x → x < m)) ∧
+      ((∃ w ∈ ws, w ≠ ⊥) → ws[i]? ≠ some ⊥) := by
+  obtain ⟨i, h1, h2⟩ := modeEst_spec_bot ps ws hlen hne
+  exact ⟨i, h1, h2, fun hfin => mode_not_bot ws i h2 hfin⟩
 
 end C17
 end BFL
